@@ -23,6 +23,7 @@ from sa.pyfront import Program
 from sa.symex import Interp, flat_guards
 
 RULES = {
+    "R-C06-o": "collapsed: the decision structure of the algorithm - entries are gathered per (mapped) value except the new common value; the output starts as precedence[-1] and is overwritten from the lowest to the highest precedence; a per-row counter of columns not yet explained (initially the number of columns, decremented for the last precedence and for every value written while the common value has not been written yet) decides which rows take the common value when its turn comes",
     "R-C06-p": "small schemas the other operations rest on: set_if pops the key for a None / empty value and stores otherwise; filtered renumbers through a scatter of arange(new_length) and builds shape (new_length,) + shape[1:]; sliced starts its shape and coordinates with the row extent / the value; the default mapping of reindexed ranks the listed VALUES (first coordinates)",
     "R-C06-n": "forced views: get(key, force=True) of a common-valued key returns common_rowids(<the key's own column>), and items(force=True) appends ((common,), common_rowids()) for a 1-D index or ((common, c), common_rowids(c)) for EVERY column c of a 2-D one, after the explicit entries",
     "R-C06-m": "an optional parameter that holds a category value or a column number (new_common, common, colindex) is tested with `is None`, never by truthiness: 0 is a legal - and the most usual - value",
@@ -347,6 +348,176 @@ def rule_p(prog, rep):
         okkv = k is not None and k.op == "iter" and v is not None and v.op == "enumidx"
         rep.check(bool(okv and okkv), "R-C06-p", fi.fq, "reindexed: the default mapping sends the k-th smallest listed VALUE (first coordinate) to k", "{v: i for i, v in enumerate(sorted(k[0] for k in self))}",
                   "default mapping is %s" % tm.show(dm)[:90], witness={"inputs": "reindexed() of a 2-D index ranks column numbers instead of values"})
+
+
+def rule_o(prog, rep):
+    fi = prog.func("iindexes", "iindex.collapsed")
+    I = Interp(prog, hints.param_types_for("iindexes"), hints.FIELD_TYPES, inline=False)
+    fr = I.run(fi)
+    where = fi.fq
+    self_t, P, M = tm.param("self"), tm.param(fi.params()[1]), tm.param(fi.params()[2])
+    R = "R-C06-o"
+    common = tm.T("attr", self_t, "common")
+    last = tm.T("sub", P, tm.const(-1))
+
+    def is_nc(t):
+        """the new common value: self.common, or mapping.get(self.common, self.common) when a mapping is given"""
+        alts = tm.alts(t)
+        return bool(alts) and all(a == common or (a.op == "call" and tm.callee_name(a) == ".get" and a.args[0].args[0] == M and a.args[1] and a.args[1][0] == common and a.args[1][-1] == common) for a in alts) and common in alts
+
+    def cmp_nc(c, lhs_pred):
+        return c.op == "cmp" and c.args[0] in ("==", "!=") and ((lhs_pred(c.args[1]) and is_nc(c.args[2])) or (lhs_pred(c.args[2]) and is_nc(c.args[1])))
+
+    def holds_eq(g, lhs_pred):
+        """True / False: the guards say lhs == NC / lhs != NC; None: they say nothing"""
+        for c, pol in g:
+            if cmp_nc(c, lhs_pred):
+                return pol if c.args[0] == "==" else (not pol)
+        return None
+
+    arrays = [e for e in I.events if e.kind == "call" and e["name"] == "numpy.full" and not e.stack and len(e["args"]) >= 2]
+    shape2 = lambda k: (lambda t: t.op == "unpack" and t.args[1] == k and tm.contains(t, lambda x: x.op == "attr" and x.args[1] == "shape"))
+    OUT = [e for e in arrays if e["args"][1] == last]
+    CC = [e for e in arrays if shape2(1)(e["args"][1])]
+    if len(OUT) != 1 or len(CC) != 1:
+        rep.undecided(R, where, "collapsed: output and counter arrays", "expected numpy.full(rows, precedence[-1]) and numpy.full(rows, columns); found %d / %d" % (len(OUT), len(CC)))
+        return
+    out, cc = OUT[0]["result"], CC[0]["result"]
+    rep.check(shape2(0)(OUT[0]["args"][0]) and shape2(0)(CC[0]["args"][0]), R, where, "output and counter have one element per row", "", "first extent is not the number of rows")
+    rep.proved(R, where, "the output starts as the LAST precedence value; the counter starts at the number of columns", "numpy.full(rows, precedence[-1]) / numpy.full(rows, columns)")
+    # ---- preamble: argument check, new common value, empty input
+    def mapping_given(c, pol):
+        """(condition, polarity) means: a mapping was passed"""
+        if c.op == "cmp" and c.args[0] in ("is", "is not") and M in c.args[1:] and tm.NONE in c.args[1:]:
+            return (c.args[0] == "is not") == pol
+        return None
+
+    def polarity_ok(t, plain_pred, mapped_pred):
+        """every guarded choice inside t picks the mapped form exactly when a mapping is given"""
+        ok, seen = True, False
+        for x in tm.walk(t):
+            if x.op == "ifexp":
+                mg = mapping_given(x.args[0], True)
+                if mg is None:
+                    continue
+                seen = True
+                given_branch, none_branch = (x.args[1], x.args[2]) if mg else (x.args[2], x.args[1])
+                if not (all(mapped_pred(a) for a in tm.alts(given_branch)) and all(plain_pred(a) for a in tm.alts(none_branch))):
+                    ok = False
+        return ok and seen
+    raises = [e for e in I.events if e.kind == "raise" and not e.stack]
+    okr = len(raises) == 1 and any(c.op == "cmp" and c.args[0] == "<" and pol and tm.is_const(c.args[2], 2) and c.args[1].op == "call" and tm.callee_name(c.args[1]) == "builtins.len" for c, pol in flat_guards(raises[0].guards))
+    rep.check(okr, R, where, "only an index without a column axis is refused (len(self.shape) < 2)", "", "the argument check is not `len(self.shape) < 2`",
+              witness={"inputs": "collapsed() of an ordinary 2-D index raises / a 1-D index is accepted"})
+    early = [(v, g) for v, g in fr.returns if any(a.op == "alloc" and a.args[0] == "obj:iindex" for a in tm.alts(v))]
+    oke = False
+    for v, g in early:
+        ce = [e for e in I.events if e.kind == "call" and e["result"] == v and len(e["args"]) == 3]
+        norows = any((c.op == "unop" and c.args[0] == "not" and shape2(0)(c.args[1]) and pol) or (shape2(0)(c) and not pol) for c, pol in flat_guards(g))
+        oke = bool(ce) and norows and ce[0]["args"][2] == tm.T("tuple", tm.const(0)) and any(a.op == "alloc" and a.args[0] == "dict" and not I.heap.get(a, {}).get("items") for a in tm.alts(ce[0]["args"][0]))
+    rep.check(oke and len(early) == 1, R, where, "an index without rows (and only that) collapses to the empty 1-D index of shape (0,)", "", "the early return is not `if not numrows: return cls({}, new_common, (0,))`",
+              witness={"inputs": "collapsed() of a non-empty index returns an empty one"})
+    # ---- gathered entries
+    G = None
+    for e in I.events:
+        if e.kind == "store_sub" and not e.stack and e["base"].op == "alloc" and e["base"].args[0] == "dict" and all(a.op == "alloc" and a.args[0] == "list" for a in tm.alts(e["value"])):
+            G = e["base"]
+            gst = e
+    if G is None:
+        rep.undecided(R, where, "collapsed: gathering pass", "no dict of per-value row-id lists found")
+        return
+    def is_newcoord(t):
+        k0 = lambda x: x.op == "sub" and x.args[0].op == "dkey" and x.args[0].args[0] == self_t and tm.is_const(x.args[1], 0)
+        alts = tm.alts(t)
+        return bool(alts) and any(k0(a) for a in alts) and all(k0(a) or (a.op == "call" and tm.callee_name(a) == ".get" and a.args[0].args[0] == M and a.args[1] and k0(a.args[1][0]) and (len(a.args[1]) == 1 or k0(a.args[1][-1]))) for a in alts)
+    apps = [e for e in I.events if e.kind == "call" and e["method"] == "append" and not e.stack and e["recv"].op == "call" and tm.callee_name(e["recv"]) == ".get" and e["recv"].args[0].args[0] == G]
+    okk = is_newcoord(gst["index"]) and all(is_newcoord(e["recv"].args[1][0]) for e in apps) and bool(apps)
+    rep.check(okk, R, "%s@%d" % (where, gst.line), "entries are gathered under their (mapped) VALUE: mapping.get(coords[0], coords[0])", "", "gathering key is %s" % tm.show(gst["index"])[:60],
+              witness={"inputs": "any 2-D index: rows are gathered per column number / per unmapped value"})
+    k0p = lambda x: x.op == "sub" and x.args[0].op == "dkey" and tm.is_const(x.args[1], 0)
+    getp = lambda x: x.op == "call" and tm.callee_name(x) == ".get" and x.args[0].args[0] == M
+    okpol = polarity_ok(gst["index"], k0p, getp)
+    nc_terms = [y for e in [gst] + apps for c, pol in flat_guards(e.guards) if cmp_nc(c, is_newcoord) for y in c.args[1:] if is_nc(y)]
+    okpol = okpol and bool(nc_terms) and all(polarity_ok(y, lambda a: a == common, getp) for y in nc_terms)
+    rep.check(okpol, R, "%s@%d" % (where, gst.line), "values and the common value go through the mapping exactly when one is given", "", "a `mapping is None` test is inverted: the mapping is applied when absent / ignored when given",
+              witness={"inputs": "collapsed(precedence, mapping={...}): values are compared unmapped"})
+    okn = all(holds_eq(flat_guards(e.guards), is_newcoord) is False for e in [gst] + apps)
+    rep.check(okn, R, "%s@%d" % (where, gst.line), "entries of the new common value are NOT gathered", "guard new_coord != new_common", "the gathering is not guarded by new_coord != new_common (or the test is inverted)",
+              witness={"inputs": "M.collapsed([1, 0, -1]) with common 0: rows are gathered only for the common value, every other value is lost"})
+    okv = all(a in I.heap and I.heap[a].get("elts") and all(x.op == "dval" and x.args[0] == self_t for x in I.heap[a]["elts"]) for a in tm.alts(gst["value"])) and all(e["args"][0].op == "dval" for e in apps)
+    rep.check(okv, R, where, "what is gathered are the entries' row-id arrays", "", "gathered values are not the entries' row ids")
+    # ---- the main loop
+    L3 = [lid for lid, li in I.loopinfo.items() if li.get("iter") is not None and li["iter"].op == "call" and tm.callee_name(li["iter"]) == "builtins.reversed"]
+    if len(L3) != 1:
+        rep.undecided(R, where, "collapsed: main loop", "expected one loop over reversed(...), found %d" % len(L3))
+        return
+    L3 = L3[0]
+    it = I.loopinfo[L3]["iter"]
+    rep.check(it.args[1] == (tm.T("sub", P, tm.T("slice", tm.NONE, tm.const(-1), tm.NONE)),), R, where, "the loop runs over reversed(precedence[:-1]): lowest precedence first, so that higher ones overwrite", "",
+              "the loop runs over %s" % tm.show(it)[:50], witness={"inputs": "M.collapsed([1, 0, -1]): a row holding both 1 and 0 gets 0"})
+    coord = tm.T("iter", it, L3)
+    is_coord = lambda t: t == coord
+    is_last = lambda t: t == last
+
+    def from_G(idx, keypred):
+        """idx is an element of G.get(<key>, [...])"""
+        if idx.op != "iter":
+            return False
+        src = idx.args[0]
+        return src.op == "call" and tm.callee_name(src) == ".get" and src.args[0].args[0] == G and src.args[1] and keypred(src.args[1][0])
+
+    sts = [e for e in I.events if e.kind == "store_sub" and not e.stack and e["base"] in (out, cc)]
+    a = [e for e in sts if e["base"] == out and e["index"].op == "cmp"]
+    b = [e for e in sts if e["base"] == out and e["index"].op == "iter"]
+    c0 = [e for e in sts if e["base"] == cc and L3 not in e.loops]
+    d = [e for e in sts if e["base"] == cc and L3 in e.loops]
+    if not (len(a) == 1 and len(b) == 1 and len(c0) == 1 and len(d) == 1):
+        rep.undecided(R, where, "collapsed: writes", "expected 2 writes into the output and 2 decrements of the counter, found %d/%d/%d/%d" % (len(a), len(b), len(c0), len(d)))
+        return
+    a, b, c0, d = a[0], b[0], c0[0], d[0]
+    W = lambda e: "%s@%d" % (where, e.line)
+    wit = {"inputs": "a 2-D index with common 0 and rows [-1,-1], [1,-1], [0,0]: collapsed([1, 0, -1]) must give -1, 1, 0"}
+    # (a) the common value's turn
+    ia = a["index"]
+    oka = ia.args[0] == "!=" and cc in ia.args[1:] and any(tm.is_const(x, 0) for x in ia.args[1:]) and a["value"] == coord and holds_eq(flat_guards(a.guards), is_coord) is True
+    rep.check(oka, R, W(a), "when the loop reaches the common value: rows whose counter is still non-zero (a column not explained by lower precedences) take it", "output[common_count != 0] = coord under coord == new_common",
+              "this write is %s[%s] = %s under %s" % ("output", tm.show(ia)[:30], tm.show(a["value"])[:20], holds_eq(flat_guards(a.guards), is_coord)), witness=wit)
+    # (b) ordinary values
+    okb = from_G(b["index"], is_coord) and b["value"] == coord and holds_eq(flat_guards(b.guards), is_coord) is False
+    rep.check(okb, R, W(b), "any other value is written to the rows gathered for it", "output[rows of coord] = coord under coord != new_common", "index %s, value %s, guard %s" % (tm.show(b["index"])[:40], tm.show(b["value"])[:20], holds_eq(flat_guards(b.guards), is_coord)), witness=wit)
+    # decrements are by one
+    def dec1(e):
+        v = e["value"]
+        return e["aug"] == "-" and v.op == "binop" and v.args[0] == "-" and tm.is_const(v.args[2], 1)
+    rep.check(dec1(c0) and dec1(d), R, where, "the counter is decremented by one per (row, column) explained", "", "a decrement is not `-= 1`", witness=wit)
+    # (c) the last precedence, when it is not the common value
+    okc = from_G(c0["index"], is_last) and holds_eq(flat_guards(c0.guards), is_last) is False
+    rep.check(okc, R, W(c0), "if the last precedence is not the common value, its rows are counted as explained before the loop", "for rows in gathered[precedence[-1]]: common_count[rows] -= 1 under default != new_common",
+              "index %s under %s" % (tm.show(c0["index"])[:40], holds_eq(flat_guards(c0.guards), is_last)), witness=wit)
+    # (d) values below the common value
+    gd = flat_guards(d.guards)
+    flag_atoms = [(c, pol) for c, pol in gd if not cmp_nc(c, is_coord) and (c.op in ("phi", "ifexp", "loopvar") or tm.contains(c, lambda x: x.op == "loopvar"))]
+    okd = from_G(d["index"], is_coord) and holds_eq(gd, is_coord) is False and len(flag_atoms) == 1 and flag_atoms[0][1] is False
+    rep.check(okd, R, W(d), "rows of a value written BEFORE the common value's turn are counted as explained", "common_count[rows] -= 1 while the common value has not been written yet",
+              "index %s, guards %s" % (tm.show(d["index"])[:40], [(tm.show(c)[:30], p) for c, p in gd][:3]), witness=wit)
+    # the flag: False iff the last precedence is not the common value; set when the common value is written
+    if flag_atoms:
+        fl = flag_atoms[0][0]
+        be = None
+        for (nm, lid), v in I.backedge.items():
+            if lid == L3 and v.op == "ifexp" and cmp_nc(v.args[0], is_coord):
+                be = v
+        okf = be is not None and ((be.args[0].args[0] == "==" and be.args[1] == tm.TRUE) or (be.args[0].args[0] == "!=" and be.args[2] == tm.TRUE))
+        init_ok = False
+        for x in tm.walk(fl):
+            if x.op == "ifexp" and cmp_nc(x.args[0], is_last):
+                ne = x.args[0].args[0] == "!="
+                init_ok = (x.args[1] == tm.FALSE if ne else x.args[2] == tm.FALSE) and tm.contains(fl, lambda y: y == tm.TRUE)
+        rep.check(bool(okf and init_ok), R, where, "the 'common value written' flag starts False exactly when the last precedence is not the common value and becomes True at the common value's turn", "",
+                  "flag initial/back-edge structure differs", witness=wit)
+    # result
+    rets = [v for v, g in fr.returns if v.op == "call"]
+    rep.check(any(tm.callee_name(v) in (".from_array", "iindexes:iindex.from_array") and v.args[1] and v.args[1][0] == out for v in rets), R, where, "the result is from_array(output): the library picks the new common value", "", "the output array is not what is returned")
 
 
 CATEGORY_PARAMS = {"iindex.shift_common": ("new_common",), "column_stack": ("new_common",), "iindex.from_array": ("common",), "iindex.common_rowids": ("colindex",)}
@@ -819,6 +990,7 @@ def main(tier):
     rule_m(prog, rep)
     rule_n(prog, rep)
     rule_p(prog, rep)
+    rule_o(prog, rep)
     import c07
     sub7 = core.Report("C07", level="other", rules=c07.RULES, tier=tier)
     ii7 = prog.cls("iindexes", "iindex")
